@@ -166,6 +166,28 @@ func expectedUniversalTag(t reflect.Type, params fieldParameters) (tag uint64, o
 	return 0, false
 }
 
+// choiceHasTag reports whether t is a CHOICE one of whose alternatives (looking through
+// untagged nested CHOICEs) is selected by the tag number.
+func choiceHasTag(t reflect.Type, tagNumber uint64) bool {
+	for t.Kind() == reflect.Ptr {
+		t = t.Elem()
+	}
+	if !isChoiceType(t) {
+		return false
+	}
+	for i := 1; i < t.NumField(); i++ {
+		p := parseFieldParameters(t.Field(i).Tag.Get("ber"))
+		if p.tagNumber != nil {
+			if *p.tagNumber == tagNumber {
+				return true
+			}
+		} else if choiceHasTag(t.Field(i).Type, tagNumber) {
+			return true
+		}
+	}
+	return false
+}
+
 // matchMember reports whether the element with header tal is the one for a struct member of
 // type t: by tagNum when the member declares one, otherwise by the universal tag of its type.
 func matchMember(t reflect.Type, params fieldParameters, tal tagAndLen) bool {
@@ -324,7 +346,13 @@ func ParseField(v reflect.Value, bytes []byte, params fieldParameters) error {
 
 				for i := 1; i < structType.NumField(); i++ {
 					if structParams[i].tagNumber == nil {
+						// an untagged alternative that is itself a CHOICE is selected by the tags of
+						// its own alternatives
 						// TODO: choice type with a universal tag
+						if choiceHasTag(structType.Field(i).Type, tal.tagNumber) {
+							present = i
+							break
+						}
 					} else if *structParams[i].tagNumber == tal.tagNumber {
 						present = i
 						break
